@@ -215,7 +215,21 @@ def gen_case(seed, i):
     if r < 0.15:
         rootargs.insert(at, rng.choice(roots))
     elif r < 0.35 and len(dirs) > 1:
-        rootargs.insert(at, rng.choice(dirs))
+        # an inner input path; half of the time one that the walk of the outer one does NOT enter by itself
+        # (a hidden directory, or something below one): given explicitly it is scanned, in whatever order
+        # (the input path's OWN name must be visible - a hidden input path is not scanned - but an ancestor is hidden)
+        inner = [d for d in dirs if "/." in d and not d.rsplit("/", 1)[1].startswith(".") and any(f.startswith(d + "/") for f in files)]
+        if rng.random() < 0.5:
+            if not inner:
+                hd = rng.choice(dirs) + "/.hdir"
+                w.add_file(hd + "/f.txt", {"fam": 4000, "len": 5, "flips": []})
+                w.add_file(hd + "/sub/k", {"fam": 4001, "len": 50, "flips": []})
+                w.add_file(hd + "/sub/deep/m.txt", {"fam": 4002, "len": 5, "flips": []})
+                dirs += [hd, hd + "/sub", hd + "/sub/deep"]
+                inner = [hd + "/sub"]
+            rootargs.insert(at, rng.choice(inner))
+        else:
+            rootargs.insert(at, rng.choice(dirs))
     elif r < 0.45 and files:
         rootargs.insert(at, rng.choice(files))
     return {"i": i, "world": w.to_json(), "roots": rootargs, "opts": opts}
